@@ -13,7 +13,7 @@ from .e2_eval import is_unknown
 from .sem import split_call, place
 from .c18_fold import Folder, FoldRaise, raw_module, raw_func
 from .c18_sem import (explore, app, head, same, vkey, unfn_m, strip, find, walk, contains, const_of, sym_of, norm_atom, depends_on_sym, is_empty,
-                      is_boolean)
+                      is_boolean, rewrite)
 
 N2P = "pyyeti/nastran/n2p.py"
 OP2 = "pyyeti/nastran/op2.py"
@@ -362,6 +362,13 @@ def r1b_producer(ctx):
             continue
         U, M, val = a
         cleared = None
+        sel = app(val, "idx")
+        if sel and len(sel) == 2 and same(sel[1], M) and app(sel[0], "mask:BitAnd") and len(app(sel[0], "mask:BitAnd")) == 2:
+            # (words & k)[sel] is words[sel] & k for a scalar k
+            x, k = app(sel[0], "mask:BitAnd")
+            x, k = (x, k) if same(x, U) else (k, x)
+            if same(x, U):
+                val = F.fn("mask:BitAnd", *sorted([F.fn("idx", U, M), k], key=lambda v: repr(vkey(v))))
         b = app(val, "mask:BitAnd")
         if b and len(b) == 2:
             for x, k in ((b[0], b[1]), (b[1], b[0])):
@@ -378,6 +385,12 @@ def r1b_producer(ctx):
             found.append((p, U, M, cleared))
     if odd:
         ctx.error("_rdop2uset: store into the USET words not recognised as `words[sel] & ~bit`", odd[0].ret_node, _show(odd[0].ret))
+        return
+    if not found and any(find(p.ret, lambda x: (head(x) or "").startswith(("mask:", "kw:where", "kw:out", "invert"))) or
+                         any(find(e, lambda x: (head(x) or "").startswith("mask:")) for e in getattr(p.ev, "escaped", [])) for p in plain):
+        # nothing recognised as a store, yet the value returned is not the record as read: a bit operation in a form this rule does not know
+        ctx.error("_rdop2uset: the value returned is computed from the USET words by a bit operation this rule does not recognise as "
+                  "`words[sel] = words[sel] & ~bit`", plain[0].ret_node, _show(plain[0].ret))
         return
     sel_ok = bool(found)
     sel_odd = None
@@ -969,17 +982,41 @@ def _analyse_lookup(p, cache):
     """regimes that differ only in tests which do not involve the look-up share one analysis"""
     node, s = p.sites[0]
     obs = [p.ret] + [c for c, _, _ in p.atoms() if c is not None]
+    # what the regime observes of the requested keys apart from the search itself (a membership test of another kind: np.isin(requested, table))
+    side = [o for o in obs if not contains(o, s["value"]) and not isinstance(s["v"], tuple) and not is_unknown(s["v"]) and contains(o, s["v"])]
     obs = [o for o in obs if contains(o, s["value"])]
-    key = (vkey(s["value"]), tuple(sorted({repr(vkey(o)) for o in obs})))
+    key = (vkey(s["value"]), tuple(sorted({repr(vkey(o)) for o in obs})), tuple(sorted({repr(vkey(o)) for o in side})))
     if key not in cache:
-        cache[key] = _analyse_lookup1(p, obs)
+        cache[key] = _analyse_lookup1(p, obs, side)
     return cache[key]
 
 
-def _analyse_lookup1(p, obs):
+_HANDS_ON = ("attr:values", "attr:array", "call:.to_numpy", "call:.copy", "call:np.copy", "call:.view_same")
+
+
+def _bare(v):
+    """v without the wrappers that hand an array on element by element (.values / .to_numpy() / .copy() - `keys` and `keys.to_numpy()` are the
+    same keys to a sorted search), wherever in the value they sit"""
+    if isinstance(v, (tuple, list)):
+        return type(v)(_bare(x) for x in v)
+    if v is None or is_unknown(v):
+        return v
+
+    def f(name, args):
+        if name in _HANDS_ON and len(args) == 1 and not isinstance(args[0], str):
+            return args[0]
+        return None
+    try:
+        return rewrite(v, f)
+    except Unsupported:
+        return v
+
+
+def _analyse_lookup1(p, obs, side=()):
     node, s = p.sites[0]
     L = _Lookup()
-    L.node, L.H, L.N, L.I, L.ss = node, s["a"], s["v"], s["sorter"], s["value"]
+    obs = [_bare(o) for o in obs]
+    L.node, L.H, L.N, L.I, L.ss = node, _bare(s["a"]), _bare(s["v"]), _bare(s["sorter"]), _bare(s["value"])
     L.res = {}            # obligation -> ("ok" | "fail" | "error", detail)
     L.P = None
     L.base = L.H
@@ -1016,7 +1053,7 @@ def _analyse_lookup1(p, obs):
         kinds.setdefault(_clamp_kind(app(u, "idx")[1], L.ss, arrays), u)
     if not uses:
         stray = find(obs, lambda x: bool(app(x, "idx")) and contains(app(x, "idx")[1], L.ss))
-        direct = [x for x in stray if same(app(x, "idx")[0], L.base) and not L.sorted_copy]
+        direct = [x for x in stray if same(app(x, "idx")[0], L.base) and not L.sorted_copy and _clamp_kind(app(x, "idx")[1], L.ss, arrays) is not None]
         if direct:
             L.res["sorter-map"] = ("fail", {"use": _show(direct[0]), "consequence": "an index into the sorted order is applied to the unsorted keys"})
         else:
@@ -1071,6 +1108,10 @@ def _analyse_lookup1(p, obs):
         L.res["recheck"] = ("ok", None)
     elif find(obs, lambda x: any(same(x, k) for k in found)):
         L.res["recheck"] = ("error", "the keys found are read back but not in a recognised ==/!= comparison with the requested keys")
+    elif side or any(same(x, L.N) for x in walk(obs, lambda x: same(x, L.ss))):
+        # the requested keys are looked at again after the search (np.isin(requested, table), a set operation, ...): possibly a membership
+        # test of another kind - nothing this rule can prove either way
+        L.res["recheck"] = ("error", "the requested keys are used again after the search, in a form this rule does not know as the exact re-check")
     else:
         L.res["recheck"] = ("fail", {"positions": _show(L.P), "consequence": "a missing key silently yields the position of a neighbour"})
     return L
@@ -1136,17 +1177,22 @@ def _selector_kind(x, L):
 
 
 def _anymis(p, L):
-    """truth of `some requested key was not found` on the path (None: never tested)"""
+    """truth of `some requested key was not found` on the path (None: never tested; "odd": a test looks at the outcome of the re-check in a
+    form this rule does not know)"""
+    odd = False
     for c, d, _ in p.atoms():
         if c is None:
             continue
+        c = _bare(c)
         a = app(c, "any")
         if a and L.is_mismatch(a[0]):
             return d
         a = app(c, "all")
         if a and L.is_match(a[0]):
             return not d
-    return None
+        if find(c, lambda y: L.is_eq(y) or L.is_ne(y) or any(same(y, k) for k in L.found)):
+            odd = True
+    return "odd" if odd else None
 
 
 def r3_checked_lookup(ctx):
@@ -1175,6 +1221,147 @@ def _searchsorted_sites(fn):
     return out
 
 
+_WIDE_TYPES = {"int", "float", "np.int64", "np.intp", "np.int_", "np.float64", "np.longlong", "'int64'", "'i8'", "'float64'", "'f8'", "'int'", "'float'"}
+_AS_ARRAY = ("attr:values", "attr:array", "attr:_values", "call:.to_numpy", "call:.copy", "call:np.copy", "call:.view_same", "call:np.ravel", "call:.ravel",
+             "call:.flatten", "call:np.squeeze")
+
+
+def _plain_keys(v):
+    """a key vector without the wrappers that hand every element on unchanged and in place: .values / .to_numpy() / .copy() / .ravel() of a
+    vector, a conversion to a 64-bit number type (ids and components are small integers) - wherever in the expression they sit"""
+    if v is None or is_unknown(v) or isinstance(v, tuple):
+        return v
+
+    def f(name, args):
+        if name in _AS_ARRAY and len(args) == 1 and not isinstance(args[0], str):
+            return args[0]
+        if name == "astype" and len(args) == 2 and sym_of(args[1]) in _WIDE_TYPES:
+            return args[0]
+        return None
+    try:
+        return _last_axis(rewrite(v, f))
+    except Unsupported:
+        return v
+
+
+def _last_axis(v):
+    """T[..., j] written as T[:, j]: the same column of a table of rows (the request list and an array USET table are two-dimensional)"""
+    if v is None or is_unknown(v):
+        return v
+    if isinstance(v, tuple):
+        return tuple(_last_axis(x) for x in v)
+
+    def f(name, args):
+        if name == "tuple" and len(args) == 2 and not isinstance(args[0], str) and sym_of(args[0]) == "Ellipsis":
+            return F.fn("tuple", F.fn("slice", NONE, NONE, NONE), args[1])
+        return None
+    try:
+        return rewrite(v, f)
+    except Unsupported:
+        return v
+
+
+def _positions_of_mask(s):
+    """M when the selection s is the vector of positions of the true elements of the boolean vector M (np.flatnonzero(M), np.nonzero(M)[0],
+    np.where(M)[0]); None otherwise"""
+    i = app(s, "idx")
+    if i and len(i) == 2 and const_of(i[1]) == 0 and app(i[0], "nonzero"):
+        return app(i[0], "nonzero")[0]
+    return None
+
+
+def _same_selection(a, b):
+    return same(_positions_of_mask(a) or a, _positions_of_mask(b) or b)
+
+
+def _full_slice(q):
+    s = app(q, "slice")
+    return bool(s) and all(sym_of(z) == "None" for z in s)
+
+
+def _label_rows(ix):
+    """(table, [row selections, in the order applied]) when the value ix is the row labels (the MultiIndex) of a selection of rows of a
+    table:  T.index;  T.loc[s].index / T[s].index / T.iloc[s].index / T.loc[s, :].index  (rows selected, then their labels);
+    T.index[s] / T.index.take(s)  (labels selected);  any nesting of these.  None: another way of getting labels"""
+    sels = []
+    x, labels = ix, True
+    for _ in range(8):
+        x = _plain_keys(x) if labels else x
+        i = app(x, "idx")
+        if labels:
+            a = app(x, "attr:index")
+            if a:
+                x, labels = a[0], False
+                continue
+            if i and len(i) == 2 and head(i[1]) != "tuple":
+                sels.append(i[1])
+                x = i[0]
+                continue
+            return None
+        if i and len(i) == 2:
+            base, sel = i[0], i[1]
+            for acc in ("attr:loc", "attr:iloc"):
+                if app(base, acc):
+                    base = app(base, acc)[0]
+                    t = app(sel, "tuple")
+                    if t and len(t) == 2 and _full_slice(t[1]):
+                        sel = t[0]
+            if head(sel) == "tuple" or sym_of(sel) is not None and sym_of(sel).startswith("'"):
+                return None             # a column selection / a 2-D selection: not a selection of rows
+            sels.append(sel)
+            x = base
+            continue
+        if unfn_m(x) is not None:
+            return None                 # a table computed some other way
+        return x, sels[::-1]
+    return None
+
+
+def _uset_level_order(ctx):
+    """names of the row-label levels of a USET DataFrame in the order its producer `make_uset` lays them out (names=[..] of the
+    pd.MultiIndex it builds: ("id", "dof")), or None when that cannot be read - a level addressed by position is then not decidable"""
+    try:
+        fn = raw_func(ctx, N2P, "make_uset")
+    except Exception:  # noqa
+        return None
+    found = []
+    for n in ast.walk(fn):
+        if isinstance(n, ast.Call) and isinstance(n.func, ast.Attribute) and n.func.attr in ("from_arrays", "from_tuples", "from_product", "from_frame"):
+            for k in n.keywords:
+                if k.arg == "names" and isinstance(k.value, (ast.List, ast.Tuple)) \
+                        and all(isinstance(e, ast.Constant) and isinstance(e.value, str) for e in k.value.elts):
+                    found.append([e.value for e in k.value.elts])
+    return found[0] if len(found) == 1 and len(found[0]) == 2 else None
+
+
+def _column_pick(x):
+    """(table, j) when x is column j of a two-dimensional table: table[:, j]"""
+    i = app(x, "idx")
+    t = app(i[1], "tuple") if i and len(i) == 2 else None
+    if t and len(t) == 2 and _full_slice(t[0]) and const_of(t[1]) is not None:
+        return i[0], const_of(t[1])
+    return None
+
+
+def _labels_as_table(U):
+    """the row labels IX when the table U is the list / array of the label tuples of IX (np.array(IX.tolist()), np.array(list(IX)),
+    IX.to_frame().to_numpy(), IX.to_numpy() of tuples is NOT a table): column j of U is level j of IX"""
+    x = U
+    for _ in range(6):
+        x = _plain_keys(x)
+        u = unfn_m(x)
+        if u is None:
+            return None
+        if u[0] in ("call:.tolist", "call:list", "call:np.array", "call:np.asarray", "call:.to_list", "call:np.vstack") and len(u[1]) == 1:
+            x = u[1][0]
+            continue
+        if u[0] == "call:.to_frame" and not isinstance(u[1][0], str):
+            x = u[1][0]
+            continue
+        return x if _label_rows(x) is not None and not same(x, U) else None
+    return None
+
+
 def _r3_mkdofpv(ctx):
     fn, paths, reach = _lookup_paths(ctx, N2P, "mkdofpv")
     cache = {}
@@ -1197,7 +1384,7 @@ def _r3_mkdofpv(ctx):
     def outcome(p, L, D):
         if p.raised is not None:
             return "raise"
-        r = p.ret
+        r = _bare(p.ret)
         if not (isinstance(r, tuple) and len(r) == 2) or D is None:
             return "unknown"
         if same(r[0], L.P) and same(r[1], D):
@@ -1205,13 +1392,18 @@ def _r3_mkdofpv(ctx):
         a, b = app(r[0], "idx"), app(r[1], "idx")
         fa, fb = bool(a) and same(a[0], L.P), bool(b) and same(b[0], D)
         ua, ub = same(r[0], L.P), same(r[1], D)
+        # what each selection keeps: the exact matches (as a mask or as its index vector - the same rows in the same order), their complement,
+        # or something this rule does not know
+        ka = _selector_kind(a[1], L) if fa else None
+        kb = _selector_kind(b[1], L) if fb else None
         if fa and fb:
-            if not same(a[1], b[1]):
+            if ka == "match" and kb == "match":
+                return "filtered"
+            if "mismatch" in (ka, kb):
                 return "misfiltered"
-            k = _selector_kind(a[1], L)
-            return {"match": "filtered", "mismatch": "misfiltered"}.get(k, "unknown")
-        if (fa and ub) or (ua and fb):
-            return "misfiltered"
+            return "unknown"
+        if (fa and ub and ka is not None) or (ua and fb and kb is not None):
+            return "misfiltered"        # one of the two is filtered by the re-check, the other returned whole
         return "unknown"
 
     outs = [(p, L, D, outcome(p, L, D), _anymis(p, L), _flag(p, "strict")) for p, L, D in rows]
@@ -1224,6 +1416,12 @@ def _r3_mkdofpv(ctx):
     if unk is not None:
         ctx.error("mkdofpv: value returned after the look-up not recognised", unk[0].ret_node, {"regime": unk[0].describe(), "returned": _show(unk[0].ret)})
         return bound
+    unk = _first(outs, lambda t: t[4] == "odd")
+    if unk is not None and not any(t[4] in (True, False) for t in outs):
+        ctx.error("mkdofpv: the test on the outcome of the exact re-check is not recognised (rule knows any(found != requested), all(found == requested), "
+                  "counts of the mismatches)", fn, {"regime": unk[0].describe()})
+        return bound
+    outs = [(t[0], t[1], t[2], t[3], None if t[4] == "odd" else t[4], t[5]) for t in outs]
     # mismatch and strict: must raise
     bad = _first(outs, lambda t: t[4] is not False and t[5] is not False and t[3] != "raise")
     ctx.check(bad is None, "mkdofpv: strict=True raises when a requested DOF is missing", (bad[0].ret_node if bad else None) or fn,
@@ -1252,21 +1450,82 @@ def _r3_mkdofpv(ctx):
         atoms = [F.Rat(F.Poly.atom(a)) for a in sorted(v.n.atoms() | v.d.atoms())]
         return bool(atoms) and all(is_sel(a) for a in atoms)
 
-    ks = {mult(L.N, D) for p, L, D in rows}
+    ks = {mult(_plain_keys(L.N), D) for p, L, D in rows}
     kN = ks.pop() if len(ks) == 1 else None
     okN = kN is not None and kN > 6          # components 0..6 must not run into the id
     okH = True
     enc_odd = None
     if kN is None and len(ks) <= 1:
-        N0, D0 = rows[0][1].N, rows[0][2]
+        N0, D0 = _plain_keys(rows[0][1].N), rows[0][2]
         if not (D0 is not None and pure(N0, lambda a: bool(app(a, "idx")) and same(app(a, "idx")[0], D0))):
             enc_odd = "requested keys: " + _show(N0)         # not arithmetic on the request's columns: cannot be judged
     part_ok, part_seen, part_bad, part_odd = True, False, None, None
     uset = F.sym(fn.args.args[0].arg)
     nasset = fn.args.args[1].arg
+
+    def restricted(p, rows_of):
+        """judge the rows the table keys are built from: rows_of = (table, [row selections in the order applied]) or None (form not known).
+        A DataFrame table is restricted to the requested set by mksetpv(uset, 'p', nasset) unless that set is 'p' (all DOF)"""
+        nonlocal part_ok, part_seen, part_bad, part_odd
+        if rows_of is None or not same(rows_of[0], uset) or len(rows_of[1]) > 1:
+            part_odd = (p, None if rows_of is None else rows_of[0])
+            return
+        isp = _is_literal(p, nasset, "'p'")
+        if not rows_of[1]:
+            if isp == "odd":
+                part_odd = (p, uset)
+            elif isp is not True:
+                part_ok, part_bad = False, (p, uset)
+            return
+        s = rows_of[1][0]
+        s = _positions_of_mask(s) or s          # X[np.flatnonzero(M)] selects what X[M] selects, in the same order
+        c = _is_call(s, ("mksetpv",), ["uset", "major", "minor"])
+        g = bool(c) and same(c.get("uset"), uset) and sym_of(c.get("major")) == "'p'" and same(c.get("minor"), F.sym(nasset))
+        part_seen = part_seen or g
+        if c is None:
+            part_odd = (p, s)               # restricted, but not by a call this rule knows
+        elif not g:
+            part_ok, part_bad = False, (p, s)
+
+    order = _uset_level_order(ctx)
+
+    def level_of(x):
+        """{"self": row labels, "level": quoted level name} when x reads one level of row labels: IX.get_level_values(name or position)"""
+        c = _is_call(x, ("get_level_values",), ["self", "level"])
+        if not c or c.get("level") is None or c.get("self") is None:
+            return None
+        k = const_of(c["level"])
+        if k is not None and order is not None and k.denominator == 1 and -2 <= int(k) < 2:
+            return {"self": c["self"], "level": F.sym(repr(order[int(k)]))}          # by position: the layout make_uset gives the labels
+        return c
+
+    def by_name(v):
+        """columns 0 / 1 of the table of label tuples of IX are its levels, in the order make_uset lays them out"""
+        def f(name, args):
+            if name != "idx" or len(args) != 2 or isinstance(args[0], str):
+                return None
+            nm = sym_of(args[1]) if not isinstance(args[1], str) else None
+            if nm is not None and nm.startswith("'") and order is not None and nm[1:-1] in order:
+                # IX.to_frame()[name] / T.reset_index()[name]: the level `name` of the row labels as a column
+                fr = unfn_m(args[0])
+                if fr and fr[0] == "call:.to_frame" and not isinstance(fr[1][0], str) and _label_rows(fr[1][0]) is not None:
+                    return F.fn("call:.get_level_values", fr[1][0], args[1])
+                if fr and fr[0] == "call:.reset_index" and len(fr[1]) == 1 and _label_rows(F.fn("attr:index", fr[1][0])) is not None:
+                    return F.fn("call:.get_level_values", F.fn("attr:index", fr[1][0]), args[1])
+                return None
+            cp = _column_pick(F.fn("idx", args[0], args[1]))
+            ix = _labels_as_table(cp[0]) if cp else None
+            if ix is not None and order is not None and cp[1].denominator == 1 and -2 <= int(cp[1]) < 2:
+                return F.fn("call:.get_level_values", ix, F.sym(repr(order[int(cp[1])])))
+            return None
+        try:
+            return rewrite(v, f)
+        except Unsupported:
+            return v
+
     for p, L, D in rows:
-        H = strip(L.base)           # the table keys (for a search in a sorted copy: the keys the copy was made from)
-        tab = find(H, lambda x: bool(app(x, "idx")) and head(app(x, "idx")[1]) == "tuple")
+        H = by_name(_plain_keys(strip(L.base)))           # the table keys (for a search in a sorted copy: the keys the copy was made from)
+        tab = find(H, lambda x: _column_pick(x) is not None)
         if tab:
             U = app(tab[0], "idx")[0]
             good = kN is not None and same(H, _col(U, 0) * kN + _col(U, 1))
@@ -1274,45 +1533,30 @@ def _r3_mkdofpv(ctx):
                 enc_odd = enc_odd or "table keys: " + _show(H)
             # a plain array table has no set information: its rows are the p-set, any other request is refused
             isp = _is_literal(p, nasset, "'p'")
-            if isp == "odd":
-                part_odd = (p, U)
-            elif not (same(U, uset) and isp is True):
+            if isp == "odd" or not same(strip(U), uset):
+                part_odd = (p, U)               # the columns of something else than the table handed in: not something this rule can judge
+            elif isp is not True:
                 part_ok, part_bad = False, (p, U)
         else:
-            lv = find(H, lambda x: (_is_call(x, ("get_level_values",), ["self", "level"]) or {}).get("level") is not None)
-            ids = [x for x in lv if sym_of(_is_call(x, ("get_level_values",), ["self", "level"])["level"]) == "'id'"]
-            dfs = [x for x in lv if sym_of(_is_call(x, ("get_level_values",), ["self", "level"])["level"]) == "'dof'"]
+            lv = find(H, lambda x: level_of(x) is not None)
+            ids = [x for x in lv if sym_of(level_of(x)["level"]) == "'id'"]
+            dfs = [x for x in lv if sym_of(level_of(x)["level"]) == "'dof'"]
             good = len(ids) == 1 and len(dfs) == 1 and kN is not None and same(H, ids[0] * kN + dfs[0])
-            if any(sym_of(_is_call(x, ("get_level_values",), ["self", "level"])["level"]) is None for x in lv):
+            if any(sym_of(level_of(x)["level"]) is None or not sym_of(level_of(x)["level"]).startswith("'") for x in lv):
                 enc_odd = enc_odd or "index levels addressed by position: " + _show(H)        # which level is the id depends on the table
             if not good and kN is not None and not (len(ids) == 1 and len(dfs) == 1 and const_of((H - dfs[0]) / ids[0]) is not None) \
-                    and not pure(H, lambda a: _is_call(a, ("get_level_values",), ["self", "level"]) is not None):
+                    and not pure(H, lambda a: level_of(a) is not None):
                 enc_odd = enc_odd or "table keys: " + _show(H)
-            U = None
             if good:
-                i1 = _is_call(ids[0], ("get_level_values",), ["self", "level"])["self"]
-                i2 = _is_call(dfs[0], ("get_level_values",), ["self", "level"])["self"]
-                good = same(i1, i2) and bool(app(i1, "attr:index"))
-                U = app(i1, "attr:index")[0] if good else None
-            if good:
-                # the table is restricted to the requested set unless that set is 'p' (all DOF)
-                isp = _is_literal(p, nasset, "'p'")
-                sel = app(U, "idx")
-                if sel and (same(sel[0], F.fn("attr:loc", uset)) or same(sel[0], uset)):
-                    c = _is_call(sel[1], ("mksetpv",), ["uset", "major", "minor"])
-                    g = bool(c) and same(c.get("uset"), uset) and sym_of(c.get("major")) == "'p'" and same(c.get("minor"), F.sym(nasset))
-                    part_seen = part_seen or g
-                    if c is None:
-                        part_odd = (p, U)           # restricted, but not by a call this rule knows
-                    elif not g:
-                        part_ok, part_bad = False, (p, U)
-                elif same(U, uset):
-                    if isp == "odd":
-                        part_odd = (p, U)
-                    elif isp is not True:
-                        part_ok, part_bad = False, (p, U)
+                # both levels are read from the row labels of one and the same selection of rows of the table - whether the labels are taken
+                # after the rows were selected (uset.loc[pv].index) or selected themselves (uset.index[pv])
+                r1, r2 = _label_rows(level_of(ids[0])["self"]), _label_rows(level_of(dfs[0])["self"])
+                if r1 is None or r2 is None:
+                    enc_odd = enc_odd or "row labels the index levels are read from: " + _show(level_of((ids if r1 is None else dfs)[0])["self"])
+                elif not (same(r1[0], r2[0]) and len(r1[1]) == len(r2[1]) and all(_same_selection(a, b) for a, b in zip(r1[1], r2[1]))):
+                    good = False            # id and component read from different selections of rows: the keys pair unrelated labels
                 else:
-                    part_odd = (p, U)
+                    restricted(p, r1)
         okH = okH and good
     if enc_odd is not None:
         # a violation only when both sides are id*k + component with different / too small k; another way of packing (id, component) into one
@@ -1338,7 +1582,12 @@ def _r3_mkdofpv(ctx):
         c = _is_call(D, ("expanddof",), ["dof", "grids_only"]) if D is not None else None
         if c is None and D is not None and not same(strip(D), F.sym(par)):
             odd = D                 # expanded some other way: not something this rule can judge
-        good = good and bool(c) and same(c.get("dof"), F.sym(par)) and same(c.get("grids_only"), F.sym("grids_only"))
+        g = c.get("grids_only") if c else None
+        if g is not None and app(g, "call:bool") and len(app(g, "call:bool")) == 1:
+            g = app(g, "call:bool")[0]              # expanddof only looks at the truth of the flag
+        if c and g is not None and not same(g, F.sym("grids_only")) and depends_on_sym(g, "grids_only") and same(c.get("dof"), F.sym(par)):
+            odd = D                 # the flag is handed on in a converted form: nothing to prove
+        good = good and bool(c) and same(c.get("dof"), F.sym(par)) and same(g, F.sym("grids_only"))
     if not good and odd is not None:
         ctx.error("mkdofpv: how the request is expanded is not recognised (rule knows expanddof(dof, grids_only))", fn, _show(odd))
     else:
@@ -1415,7 +1664,7 @@ def _r3_mat_intersect(ctx):
             L = looks[id(p)]
             if not p.returned:
                 continue
-            r = p.ret
+            r = _bare(p.ret)
             if not (isinstance(r, tuple) and len(r) == 2):
                 ctx.error("mat_intersect: value returned after the look-up not recognised", p.ret_node, _show(r))
                 return bound
@@ -1522,7 +1771,8 @@ def _exceeds(c):
             return x, k, False
         if op == "GtE":
             return x, k - 1, False
-    if red == "all":
+    if red in ("all", "max"):
+        # all(X <= k) / max(X) <= k: no element exceeds k
         if op == "LtE":
             return x, k, True
         if op == "Lt":
@@ -1533,7 +1783,7 @@ def _exceeds(c):
 def _some_exceed(p, arr, bound):
     """truth on path p of `some element of arr > bound` (None: not tested)"""
     for c, d, _ in p.atoms():
-        e = _exceeds(c) if c is not None else None
+        e = _exceeds(_last_axis(c)) if c is not None else None
         if e and same(e[0], arr) and e[1] == bound:
             return d != e[2]
     return None
@@ -1562,6 +1812,9 @@ def _cross_rows(v):
     spellings:  [[x, r] for x in X for r in R]  (or the loop nest that appends the same rows);
     np.column_stack((np.repeat(X, len(R)), np.tile(R, len(X))))  (also np.c_[..], np.vstack / np.array of the two, transposed);
     itertools.product(X, R)"""
+    gr = _grid_rows(v)
+    if gr is not None:
+        return (gr[1], gr[2]) if gr[0] == "rows" else None
     v = strip(v)
     a = app(v, "comp")
     if a and len(a) == 3:
@@ -1591,6 +1844,103 @@ def _cross_rows(v):
     if nrows is not None and not any(same(nrows, a * b) for a in nX for b in nR):
         return None                 # a buffer whose row count is not (number of ids) x (number of components)
     return (X, R) if n_ok and m_ok else None
+
+
+def _axis_vector(x):
+    """(X, axis) when the value x is the vector X laid along one axis of a two-dimensional broadcast: axis 0 for a column vector
+    (X[:, None], X.reshape(-1, 1), np.expand_dims(X, 1), np.atleast_2d(X).T), axis 1 for a row vector (X itself, X[None, :],
+    X.reshape(1, -1), np.atleast_2d(X)); None otherwise"""
+    i = app(x, "idx")
+    if i and len(i) == 2:
+        parts = app(i[1], "tuple") or [i[1]]
+        kinds = ["new" if sym_of(q) in ("None", "np.newaxis") else ("all" if _full_slice(q) or sym_of(q) == "Ellipsis" else None) for q in parts]
+        if kinds == ["all", "new"]:
+            return i[0], 0
+        if kinds in (["new", "all"], ["new"]):
+            return i[0], 1
+        return None
+    c = _is_call(x, ("reshape",), ["a", "s0", "s1"])
+    if c and c.get("a") is not None:
+        shp = [c.get("s0"), c.get("s1")]
+        if shp[1] is None and shp[0] is not None and app(shp[0], "tuple") and len(app(shp[0], "tuple")) == 2:
+            shp = list(app(shp[0], "tuple"))
+        ks = [const_of(z) if z is not None else None for z in shp]
+        if ks == [-1, 1]:
+            return c["a"], 0
+        if ks == [1, -1]:
+            return c["a"], 1
+        return None
+    c = _is_call(x, ("expand_dims",), ["a", "axis"])
+    if c and c.get("a") is not None and const_of(c.get("axis")) in (0, 1, -1):
+        return c["a"], (0 if const_of(c["axis"]) in (1, -1) else 1)
+    t = app(x, "attr:T")
+    if t and _is_call(t[0], ("atleast_2d",), ["a"]):
+        return _is_call(t[0], ("atleast_2d",), ["a"])["a"], 0
+    c = _is_call(x, ("atleast_2d",), ["a"])
+    if c and c.get("a") is not None:
+        return c["a"], 1
+    if unfn_m(x) is None or head(x) in ("call:np.arange", "call:range", "astype", "call:np.ravel", "call:.ravel", "call:.reshape"):
+        return x, 1                 # a plain vector broadcasts along the last axis
+    return None
+
+
+def _grid_rows(v):
+    """the id x component product written with broadcasting: ("rows", X, R) when v holds the rows [x, r] for x in X (outer) for r in R (inner);
+    ("wrong", text) when it recognisably holds them component-major; None when v is not of these forms.  Forms: a buffer of shape
+    (len(X), len(R), 2) whose planes [..., 0] / [..., 1] are stored from a column vector of X and a row vector of R, reshaped to (-1, 2);
+    np.meshgrid(X, R, indexing="ij") raveled into two columns; np.broadcast_arrays(column of X, R) raveled into two columns"""
+    v0 = v
+    v = strip(v)
+    # planes of a 3-axis buffer
+    written, x = {}, v
+    while app(x, "upd"):
+        base, ix, val = app(x, "upd")
+        e = app(ix, "tuple")
+        if not (e and len(e) in (2, 3) and const_of(e[-1]) is not None and all(_full_slice(q) or sym_of(q) == "Ellipsis" for q in e[:-1])):
+            written = None
+            break
+        written.setdefault(int(const_of(e[-1])), val)
+        x = base
+    a = app(x, "alloc")
+    shp = app(a[1], "tuple") if a else None
+    if written and shp and len(shp) == 3 and const_of(shp[2]) == 2 and len(written) == 2:
+        c0, c1 = written.get(0, written.get(-2)), written.get(1, written.get(-1))
+        if c0 is None or c1 is None or not app(v0, "call:.reshape"):
+            return None
+        r = app(v0, "call:.reshape")[1:]
+        r = list(app(r[0], "tuple")) if len(r) == 1 and app(r[0], "tuple") else list(r)
+        if [const_of(z) for z in r] != [-1, 2]:
+            return None
+        a0, a1 = _axis_vector(c0), _axis_vector(c1)
+        if a0 is None or a1 is None:
+            return None
+        if (a0[1], a1[1]) == (0, 1):
+            return "rows", a0[0], a1[0]
+        if (a0[1], a1[1]) == (1, 0):
+            return "wrong", "the ids vary along the inner axis of the buffer: component-major rows"
+        return None
+    tc = _two_columns(v)
+    if tc is None:
+        return None
+    cols = [strip(c) for c in tc[0]]
+    picks = [app(c, "idx") for c in cols]
+    if all(p and len(p) == 2 and const_of(p[1]) is not None for p in picks) and same(picks[0][0], picks[1][0]):
+        ks = [int(const_of(p[1])) for p in picks]
+        g = picks[0][0]
+        mg = _is_call(g, ("meshgrid",), ["x", "y"])
+        if mg and mg.get("x") is not None and mg.get("y") is not None and set(mg) <= {"x", "y", "indexing"}:
+            ij = sym_of(mg.get("indexing")) == "'ij'"
+            if ks == [0, 1]:
+                return ("rows", mg["x"], mg["y"]) if ij else ("wrong", "np.meshgrid with the default 'xy' indexing raveled row by row: component-major rows")
+            return None
+        ba = _is_call(g, ("broadcast_arrays",), ["a", "b"])
+        if ba and ba.get("a") is not None and ba.get("b") is not None and set(ba) == {"a", "b"} and ks == [0, 1]:
+            a0, a1 = _axis_vector(ba["a"]), _axis_vector(ba["b"])
+            if a0 and a1 and (a0[1], a1[1]) == (0, 1):
+                return "rows", a0[0], a1[0]
+            if a0 and a1 and (a0[1], a1[1]) == (1, 0):
+                return "wrong", "the ids vary along the inner axis of the broadcast: component-major rows"
+    return None
 
 
 def _two_columns(v):
@@ -1643,6 +1993,9 @@ def _two_columns(v):
 def _cross_rows_wrong(v):
     """text when v is recognisably a *different arrangement* of the id x component product: component-major row order, or the two columns
     exchanged (rows of one id must be contiguous, id in column 0)"""
+    gr = _grid_rows(v)
+    if gr is not None:
+        return gr[1] if gr[0] == "wrong" else None
     v = strip(v)
     a = app(v, "comp")
     if a and len(a) == 3:
@@ -1788,6 +2141,8 @@ def r4_expanddof(ctx):
     kinds = []
     for p in rets:
         v = None if p.ret is None or (isinstance(p.ret, tuple) and p.ret != ()) else (p.ret if p.ret == () else strip(p.ret))
+        if v is not None and not is_unknown(v) and v != () and _grid_rows(p.ret) is not None:
+            v = p.ret                   # a broadcast grid reshaped to rows: the final reshape is part of the form
         if v is None or is_unknown(v):
             k = "unknown"
         elif is_empty(v):
@@ -1843,13 +2198,13 @@ def r4_expanddof(ctx):
         if t is False:
             continue
         # a test on the expanded value that is not an understood `some element of X > c` test: the rule cannot tell what it refuses
-        looks_at = [c for c, d, _ in p.atoms() if c is not None and find(c, lambda x: head(x) == "call:str") and _elem_test(c) is None]
+        looks_at = [c for c, d, _ in p.atoms() if c is not None and find(c, lambda x: head(x) == "call:str") and _elem_test(_last_axis(c)) is None]
         if t is None and looks_at:
             unclear = (p, looks_at[0])
         else:
             bad = p
-    guard = any(p.raised is not None and any(c is not None and _exceeds(c) and _exceeds(c)[1] == 6 and find(c, lambda x: head(x) == "call:str")
-                                             and d != _exceeds(c)[2] for c, d, _ in p.atoms()) for p in paths)
+    guard = any(p.raised is not None and any(c is not None and _exceeds(_last_axis(c)) and _exceeds(_last_axis(c))[1] == 6 and find(c, lambda x: head(x) == "call:str")
+                                             and d != _exceeds(_last_axis(c))[2] for c, d, _ in p.atoms()) for p in paths)
     if bad is None and unclear is not None:
         ctx.error("expanddof: test on the expanded components not recognised", unclear[0].ret_node, _show(unclear[1]))
     else:
@@ -1857,9 +2212,23 @@ def r4_expanddof(ctx):
                   None if bad is None and guard else {"regime": (bad or digits[0][0]).describe()})
     # the early-return arm is taken only when no component exceeds 6
     asis = [t for t in kinds if t[1] == "as-is"]
-    bad = _first(asis, lambda t: _some_exceed(t[0], _col(t[0].ret, 1), 6) is not False and _some_exceed(t[0], _col(t[2], 1), 6) is not False)
-    ctx.check(bool(asis) and bad is None, "expanddof: unexpanded return only when every component <= 6", (bad[0].ret_node if bad else None) or fn,
-              None if bad is None else {"regime": bad[0].describe()})
+    bad, odd = None, None
+    for t in asis:
+        cols = [_col(t[0].ret, 1), _col(t[2], 1)]
+        # established: a test of the path says that no component exceeds some bound <= 6
+        tests = [(c, d, _exceeds(c)) for c, d in ((_last_axis(c), d) for c, d, _ in t[0].atoms() if c is not None) if any(contains(c, x) for x in cols)]
+        if any(e is not None and any(same(e[0], x) for x in cols) and e[1] <= 6 and (d != e[2]) is False for c, d, e in tests):
+            continue
+        if any(e is None for c, d, e in tests):
+            odd = odd or t          # the components are tested in a form this rule does not read
+        else:
+            bad = bad or t
+    if bad is None and odd is not None:
+        ctx.error("expanddof: test on the components of the request not recognised (rule knows max / any / all of a comparison with a constant)",
+                  odd[0].ret_node, {"regime": odd[0].describe()})
+    else:
+        ctx.check(bool(asis) and bad is None, "expanddof: unexpanded return only when every component <= 6", (bad[0].ret_node if bad else None) or fn,
+                  None if bad is None else {"regime": bad[0].describe()})
     # 1-D ids: 1..6 or 0..6 by grids_only
     ids = [t for t in kinds if t[1] == "ids"]
     good = bool(ids)
@@ -1988,7 +2357,7 @@ def r5_index2slice(ctx):
     # evenly spaced runs only
     bad, odd = None, None
     for p, (a, b, st) in runs:
-        good = same(a, first) and any(same(st, x) for x in steps) and p.decided(F.fn("cmp:Eq", st, F.const(0))) is False
+        good = same(a, first) and any(same(st, x) for x in steps) and (p.decided(F.fn("cmp:Eq", st, F.const(0))) is False or p.decided(st) is True)
         reg = None
         for c, d, _ in p.atoms():
             x = app(c, "all") if c is not None else None
@@ -2080,13 +2449,37 @@ def r5_index2slice(ctx):
                   nontrivial=bool(empties))
 
 
+def _complete_paths_only(rule):
+    """A verdict `violation` rests on having seen every way through the analysed function.  When the evaluator skipped a block that holds a
+    raise / return (a loop it does not execute, the handlers of a try), the regimes are incomplete: what looks like a missing refusal or a
+    missing guard may sit in that block.  The obligations that failed are then recorded as not decided (exit 2), never as violations."""
+    import functools
+
+    @functools.wraps(rule)
+    def run(ctx):
+        ctx.__dict__["_c18_hidden"] = []
+        n0 = len(ctx.obls)
+        try:
+            rule(ctx)
+        finally:
+            hidden = ctx.__dict__.get("_c18_hidden") or []
+            if hidden:
+                where = sorted({f"{q}: {type(h).__name__} at line {h.lineno}" for q, h in hidden})
+                for o in ctx.obls[n0:]:
+                    if o.status == "fail":
+                        o.status = "error"
+                        o.instance += " [not decided: a block with a raise / return was not executed by the evaluator]"
+                        o.detail = {"skipped": where, "comparison": o.detail}
+    return run
+
+
 RULES = [
     ("C18-R1", r1_lattice, 200),
-    ("C18-R1b", r1b_producer, 5),
-    ("C18-R2", r2_mksetpv, 6),
-    ("C18-R3", r3_checked_lookup, 23),
-    ("C18-R4", r4_expanddof, 9),
-    ("C18-R5", r5_index2slice, 4),
+    ("C18-R1b", _complete_paths_only(r1b_producer), 5),
+    ("C18-R2", _complete_paths_only(r2_mksetpv), 6),
+    ("C18-R3", _complete_paths_only(r3_checked_lookup), 23),
+    ("C18-R4", _complete_paths_only(r4_expanddof), 9),
+    ("C18-R5", _complete_paths_only(r5_index2slice), 4),
 ]
 LEVEL = "other"
 EXPLANATION = ("Static: the USET bit-mask table is the value mkusetmask returns, constant-folded from the source however it is built (dict literal, "
